@@ -16,6 +16,8 @@ def secret_value(kind, token):
         return token
     if kind == 'bytes':
         return token.encode()
+    if kind == 'rawbytes':
+        return b'\xff\xfe\x00' + token.encode() + b'\x80'       # binary key material: not valid UTF-8
     if kind == 'num':
         return int(token.encode().hex(), 16)
     if kind == 'nested':
@@ -48,6 +50,14 @@ def plain_value(spec):
         return Bad()
     if k == 'markup':
         return '<script>alert(1)</script>'
+    if k == 'decimal':
+        import decimal
+        return decimal.Decimal('0.07')
+    if k == 'fraction':
+        import fractions
+        return fractions.Fraction(1, 3)
+    if k == 'complex':
+        return complex(1, 2)
     raise ValueError(k)
 
 
@@ -184,10 +194,11 @@ def oracle(case, obs):
 
 
 def gen_case(rng, tier):
-    secrets = [[n, rng.choice(['str', 'bytes', 'num', 'nested', 'obj'])] for n in rng.sample(SECRET_NAMES, rng.choice([0, 1, 2, 3]))]
+    secrets = [[n, rng.choice(['str', 'bytes', 'rawbytes', 'num', 'nested', 'obj'])] for n in rng.sample(SECRET_NAMES, rng.choice([0, 1, 2, 3]))]
     plain = []
     for n in rng.sample(PLAIN_NAMES, rng.choice([0, 1, 2, 4])):
-        plain.append([n, rng.choice([['str', 'value-of-' + n], ['num', 12345], ['long'], ['list'], ['markup'],
+        plain.append([n, rng.choice([['str', 'value-of-' + n], ['num', 12345], ['long'], ['list'], ['markup'], ['decimal'], ['fraction'],
+                                     ['complex'],
                                      ['badrepr'] if rng.random() < 0.15 else ['str', 'v']])])
     return {'consumers': [rng.choice([None, 'function', 'default', 'method', 'callable']) for _ in range(8)],
             'secrets': secrets, 'plain': plain, 'cookie_mw': rng.random() < 0.6, 'getparam_mw': rng.random() < 0.3,
@@ -204,7 +215,7 @@ def run(rep, b, tier, seed, only_cases=None):
     rng = random.Random(seed * 236887699 + 18)
     corpus = [c['case'] if 'case' in c else c for c in core.load_corpus('C18')]
     cases = list(only_cases) if only_cases is not None else corpus + [gen_case(rng, tier) for _ in range(120 if tier == 'quick' else 1200)]
-    rep.rule = ('metalab: host applications with 0-3 secret-named resources (%d names: prefix/infix/suffix; values: strings, bytes, '
+    rep.rule = ('metalab: host applications with 0-3 secret-named resources (%d names: prefix/infix/suffix; values: strings, bytes incl. binary key material, '
                 'numbers, nested containers, objects whose repr contains the secret) and 0-4 other resources (incl. names that differ in '
                 'case, long values, markup, objects whose repr raises), routes of several endpoint kinds (incl. functions, methods and callable objects that take a secret-named resource as a required or defaulted argument), a static route, an embedded '
                 'application, SignedCookie (known key) and GetParam middlewares; meta mounted at %d prefixes, directly or embedded one '
